@@ -143,6 +143,50 @@ def box_case(draw, types=None, max_n=4, max_w=3, lo=-3, hi=4, allow_zero_cap=Tru
 
 
 # ----------------------------------------------------------------------------------------------
+# far boxes: the same shapes moved far away from zero (beyond 8/16-bit ranges, up to 10^9).  The brute-force oracles
+# depend on the widths only, so the value magnitude is free; what is moved with the box is whatever the documented
+# relation needs so that the contract still holds (gcc base value, list entries, searched values, right-hand sides).
+# ----------------------------------------------------------------------------------------------
+FAR_SHIFTS = [120, 130, 250, 260, 32760, 32768, 32770, 40000, 65530, 65536, 70000, 10**6, 10**7]
+FAR_SHIFTS_NONLINEAR = FAR_SHIFTS + [2 * 10**8, 10**9]
+
+
+def shift_box_case(case, t):
+    """The case with every *value* moved by t (indices, counts and Booleans stay where they are)."""
+    name, box, p = case["type"], case["box"], list(case["params"])
+    sh = lambda b: [b[0] + t, b[1] + t]  # noqa: E731
+    T = TYPES[name]
+    if T.boolean or T.perm or name == "dummy":
+        return case
+    if name.startswith("affine"):
+        return {"type": name, "params": p[:-1] + [p[-1] + t * sum(p[:-1])], "box": [sh(b) for b in box]}
+    if name == "count_eq":
+        return {"type": name, "params": [p[0] + t], "box": [sh(b) for b in box[:-1]] + [box[-1]]}
+    if name == "element_iv":
+        return {"type": name, "params": [x + t for x in p], "box": [box[0], sh(box[1])]}
+    if name == "element_lic":
+        return {"type": name, "params": [p[0] + t], "box": [sh(b) for b in box[:-1]] + [box[-1]]}
+    if name == "element_liv":
+        return {"type": name, "params": p, "box": [sh(b) for b in box[:-2]] + [box[-2], sh(box[-1])]}
+    if name == "exactly_eq":
+        return {"type": name, "params": [p[0] + t, p[1]], "box": [sh(b) for b in box]}
+    if name == "gcc":
+        return {"type": name, "params": [p[0] + t] + p[1:], "box": [sh(b) for b in box]}
+    if name == "relation":
+        return {"type": name, "params": [x + t for x in p], "box": [sh(b) for b in box]}
+    return {"type": name, "params": p, "box": [sh(b) for b in box]}
+
+
+@st.composite
+def far_box_case(draw, **kw):
+    case = draw(box_case(**kw))
+    linear = case["type"].startswith("affine")
+    t = draw(st.sampled_from(FAR_SHIFTS if linear else FAR_SHIFTS_NONLINEAR)) * draw(st.sampled_from([1, -1]))
+    t += draw(st.integers(-3, 3))
+    return shift_box_case(case, t)
+
+
+# ----------------------------------------------------------------------------------------------
 # problem cases (solver level)
 # ----------------------------------------------------------------------------------------------
 GENERAL_TYPES = [
@@ -232,7 +276,7 @@ def problem_case(
     max_props=3,
     max_arity=4,
     max_points=20000,
-    profiles=("general", "general", "bool", "perm", "nonneg", "wide", "onedir"),
+    profiles=("general", "general", "bool", "perm", "nonneg", "wide", "onedir", "far"),
     allow_zero_cap=True,
     extra_vars=True,
     min_props=1,
@@ -259,8 +303,13 @@ def problem_case(
     ns = draw(st.integers(1, max_shr if profile != "wide" else min(3, max_shr))) if profile != "onedir" else draw(st.integers(2, min(4, max(2, max_shr))))
     shr = []
     size = 1
+    if profile == "far":
+        # every domain around one value far from zero (16-bit limits, millions): value magnitude instead of shape
+        far_base = draw(st.sampled_from([250, 32766, 40000, 65534, 10**6, 5 * 10**7])) * draw(st.sampled_from([1, -1]))
     for _ in range(ns):
-        if profile == "bool":
+        if profile == "far":
+            d = draw(interval(far_base - 3, far_base + 4, max_w))
+        elif profile == "bool":
             d = draw(bool_interval())
         elif profile == "wide":
             # few variables with wide domains: 3-way value splits with non-singleton remainders, deep restarts
@@ -324,7 +373,8 @@ CONS = ["bc", "shaving"]
 
 
 def cost_heuristics_allowed(case):
-    return all(lo >= 0 for lo, _ in case["shr"])
+    # the cost tables have one column per value from 0 to the greatest one: only for small non-negative values
+    return all(lo >= 0 and hi <= 64 for lo, hi in case["shr"])
 
 
 @st.composite
